@@ -126,6 +126,20 @@ def rewrites_once(schema: Schema, m: Optional[Msg], recs: List[Rec], max_full: i
                     recs[:i] + unp[:a] + [wire.make_rec(r.number, wire.LEN, b"".join(chunks[a:]))] + recs[i + 1:])
                 yield "mixed-packed-then-unpacked", (
                     recs[:i] + [wire.make_rec(r.number, wire.LEN, b"".join(chunks[:a]))] + unp[a:] + recs[i + 1:])
+    # 2b. non-minimal varints INSIDE a packed payload (each varint element in turn)
+    for i, r in enumerate(recs):
+        f = fields.get(r.number)
+        if f is None or f.card != "repeated" or f.base not in PACKABLE or r.wt != wire.LEN:
+            continue
+        if elem_wt(f.kind) != wire.VARINT:
+            continue
+        chunks = split_packed(f.kind, r.payload)
+        for j, c in enumerate(chunks):
+            val, _ = wire.dec_varint(c, 0)
+            for pad in sorted({len(c) + 1, len(c) + 2, 10}):
+                if len(c) < pad <= 10:
+                    padded = chunks[:j] + [wire.enc_varint(val, pad)] + chunks[j + 1:]
+                    yield "pad-packed-element", recs[:i] + [wire.make_rec(r.number, wire.LEN, b"".join(padded))] + recs[i + 1:]
     # 3. non-minimal varints: tag, length, value of each record in turn
     for i, r in enumerate(recs):
         tl = len(wire.tag(r.number, r.wt))
